@@ -477,7 +477,9 @@ class SymX:
         return -f
 
     def __round__(self, n=None):
-        raise TypeError('round() of a symbolic real is not modelled')
+        if n is not None:
+            raise TypeError('round(x, n) of a symbolic real is not modelled')
+        return _CTX.round_of(self)
 
     def __float__(self):
         # C-level coercion.  The only legitimate one is %-formatting of a log/progress message (formatting and
@@ -577,6 +579,20 @@ class SymInt:
 
     def _promote(self):
         return SymX(z3.ToReal(self.t))
+
+    def astype(self, dtype, *a, **k):
+        """numpy scalar cast: fixed-width integer types wrap modulo 2**bits (two's complement), floats promote."""
+        dt = _np.dtype(dtype)
+        if dt.kind == 'f':
+            return self._promote()
+        if dt.kind in 'iu':
+            bits = 8 * dt.itemsize
+            m = z3.IntVal(2 ** bits)
+            if dt.kind == 'u':
+                return SymInt(_simp(self.t % m))
+            half = z3.IntVal(2 ** (bits - 1))
+            return SymInt(_simp((self.t + half) % m - half))
+        raise TypeError('astype(%s) of a symbolic integer is not modelled' % dt)
 
     def __add__(self, o):
         t = self._ot(o)
@@ -1371,6 +1387,14 @@ class SymCtx:
     def floor_of(self, x):
         k = z3.Int(self._fresh('floor'))
         self._fact(z3.And(z3.ToReal(k) <= x.t, x.t < z3.ToReal(k) + 1))
+        return SymInt(k)
+
+    def round_of(self, x):
+        """Python's round(): the nearest integer, ties to the even one."""
+        k = z3.Int(self._fresh('round'))
+        kr = z3.ToReal(k)
+        self._fact(z3.And(kr - z3.RealVal('1/2') <= x.t, x.t <= kr + z3.RealVal('1/2')))
+        self._fact(z3.Implies(z3.Or(x.t == kr - z3.RealVal('1/2'), x.t == kr + z3.RealVal('1/2')), k % 2 == 0))
         return SymInt(k)
 
     # ---- outputs and claims
